@@ -19,7 +19,12 @@ AggOk(e) == LET x == Agg(e.f, e.xs) IN
             IF x.t = "mid" THEN \E i \in 1..Len(e.mids) :
                                    e.mids[i][1] = x.lo.n /\ e.mids[i][2] = x.hi.n /\ e.mids[i][3] = e.bits
             ELSE e.res = x
-ConvOk(e) == e.list = e.separate /\ e.list = e.spread
+\* min, max and the median of an odd number of values are one of the values; the sum of a list containing an infinity of
+\* one sign only (and no NaN) is that infinity whatever the order (bit patterns compared as text; `expected` computed exactly
+\* by the harness from the elements)
+ConvOk(e) == /\ e.list = e.separate /\ e.list = e.spread
+             /\ (e.member # "n/a" => e.member = "yes")
+             /\ (e.expected # "n/a" => e.expected = e.list)
 EventOk(e) == CASE e.ev = "pct" -> PctOk(e) [] e.ev = "agg" -> AggOk(e) [] e.ev = "conv" -> ConvOk(e) [] OTHER -> FALSE
 
 Init == l = 1 /\ bad = <<>>
